@@ -654,7 +654,9 @@ func (c *Conn) reconnect(ctx context.Context) error {
 	}
 	c.wireConn = res
 	if !c.state.CompareAndSwap(connStatusReconnecting, connStatusConnected) {
-		panic(errors.Errorf("unexpected error: expected reconnecting but %v", c.state.current))
+		// 再接続中にCloseされた場合は、新しい接続を破棄します。
+		res.Close()
+		return errors.ErrConnectionClosed
 	}
 	return nil
 }
